@@ -21,6 +21,7 @@ import (
 	"encoding/json"
 	"fmt"
 	"os"
+	"strconv"
 	"strings"
 	"testing"
 
@@ -36,6 +37,7 @@ type c20Probe struct {
 	Type       string      `json:"type"`
 	Opts       [][2]string `json:"opts"`
 	Missing    []string    `json:"missing"`
+	Cond       string      `json:"cond,omitempty"` // an `if` next to id/type/config
 	Config     any         `json:"config"`
 	Controlled bool        `json:"controlled"`
 	What       string      `json:"what"`
@@ -48,10 +50,14 @@ type c20SchemaObs struct {
 	Panic    bool   `json:"panic,omitempty"`
 }
 
-func c20MechYAML(id, typ string, cfg any) string {
+func c20MechYAML(id, typ string, cfg any, cond ...string) string {
 	var sb strings.Builder
 
 	sb.WriteString("    - id: " + id + "\n      type: \"" + typ + "\"\n")
+
+	if len(cond) > 0 && cond[0] != "" {
+		sb.WriteString("      if: " + strconv.Quote(cond[0]) + "\n")
+	}
 
 	if cfg != nil {
 		b, _ := json.Marshal(cfg) // JSON is YAML (flow style)
@@ -66,7 +72,7 @@ func c20ConfigFile(p c20Probe) string {
 		"authenticators": c20MechYAML("base_authn", "anonymous", nil),
 		"finalizers":     c20MechYAML("base_fin", "noop", nil),
 	}
-	lists[p.Kind] += c20MechYAML("probe", p.Type, p.Config)
+	lists[p.Kind] += c20MechYAML("probe", p.Type, p.Config, p.Cond)
 
 	var sb strings.Builder
 
